@@ -41,20 +41,50 @@ func FromReaders(readers ...io.Reader) (*Dialogue, error) {
 }
 
 // FromReader creates a dialogue tree by reading the content of reader.
-func FromReader(reader io.Reader) (*Dialogue, error) {
+func FromReader(reader io.Reader) (dialogue *Dialogue, err error) {
 	scriptData, err := io.ReadAll(reader)
 	if err != nil {
 		return nil, fmt.Errorf("failed to read content: %w", err)
 	}
 	input := antlr.NewInputStream(string(scriptData))
 	var (
-		lexer    = parser.NewYarnSpinnerLexer(input)
-		stream   = antlr.NewCommonTokenStream(lexer, antlr.LexerDefaultTokenChannel)
-		p        = parser.NewYarnSpinnerParser(stream)
-		listener = &parserListener{}
+		syntaxErrors = &syntaxErrorListener{}
+		lexer        = parser.NewYarnSpinnerLexer(input)
+		stream       = antlr.NewCommonTokenStream(lexer, antlr.LexerDefaultTokenChannel)
+		p            = parser.NewYarnSpinnerParser(stream)
+		listener     = &parserListener{}
 	)
+	lexer.RemoveErrorListeners()
+	lexer.AddErrorListener(syntaxErrors)
+	p.RemoveErrorListeners()
+	p.AddErrorListener(syntaxErrors)
 
-	antlr.ParseTreeWalkerDefault.Walk(listener, p.Dialogue())
+	// the lexer panics on inconsistent indentation, and the listener cannot cope with every partial tree
+	defer func() {
+		if r := recover(); r != nil {
+			dialogue, err = nil, fmt.Errorf("failed to parse dialogue: %v", r)
+		}
+	}()
+
+	parseTree := p.Dialogue()
+	if len(syntaxErrors.messages) != 0 {
+		return nil, fmt.Errorf("failed to parse dialogue: %s", syntaxErrors.messages[0])
+	}
+	antlr.ParseTreeWalkerDefault.Walk(listener, parseTree)
+	if listener.dialogue == nil || len(listener.dialogue.Nodes) == 0 {
+		return nil, errors.New("failed to parse dialogue: no node found")
+	}
 
 	return listener.dialogue, nil
+}
+
+// syntaxErrorListener collects the syntax errors reported by the lexer and the parser.
+type syntaxErrorListener struct {
+	*antlr.DefaultErrorListener
+	messages []string
+}
+
+// SyntaxError is called by the lexer and the parser for every syntax error they recover from.
+func (l *syntaxErrorListener) SyntaxError(_ antlr.Recognizer, _ interface{}, line, column int, msg string, _ antlr.RecognitionException) {
+	l.messages = append(l.messages, fmt.Sprintf("line %d:%d %s", line, column, msg))
 }
